@@ -198,6 +198,10 @@ def build2d(lat):
     return tn
 
 
+class LabelMismatch(Exception):
+    """The pieces handed to net_value do not fit together (a summed label that is not on exactly two tensors)."""
+
+
 def net_value(arrs, output=()):
     """Denotation of [(array, labels)] over `output`.  vf.oracle.einsum_value whenever numpy.einsum can take it (its
     integer-sublist form allows 52 distinct labels); larger networks (lazy projector networks) are reduced pairwise with
@@ -212,7 +216,7 @@ def net_value(arrs, output=()):
             count[l] = count.get(l, 0) + 1
     for l, c in count.items():
         if c > 2 or (c == 2 and l in output) or (c == 1 and l not in output):
-            raise AssertionError("net_value: label %r is not an ordinary bond / output" % (l,))
+            raise LabelMismatch("label %r is not an ordinary bond / output" % (l,))
     ops = [(np.asarray(a), list(ls)) for a, ls in arrs]
     while len(ops) > 1:
         best = None
@@ -401,12 +405,12 @@ def s_boundary_opts(draw, mode, lat):
         o["canonize"] = "layered" if lat.get("layers", 1) == 2 and draw(st.booleans()) else "bp"
     if mode == "full-bond":
         # equalize_norms (also implied by strip_exponent) is refused by this mode: keep ~1/10 of the accepted rejection
-        k = draw(st.integers(0, 19))
-        if k == 0:
+        k = draw(st.sampled_from(["plain"] * 12 + ["eq_false"] * 4 + ["strip", "eq_true"]))  # (head of the list is favoured)
+        if k == "strip":
             o["strip_exponent"] = True
-        elif k == 1:
+        elif k == "eq_true":
             o["equalize_norms"] = draw(st.sampled_from([True, 1.0]))
-        elif k <= 4:
+        elif k == "eq_false":
             o["equalize_norms"] = False
     else:
         en = draw(st.sampled_from(["auto", "auto", False, True, 1.0]))
@@ -976,7 +980,11 @@ def env_value(tn0, parts, exponent0):
             expo += float(np.real(p.exponent))
         else:
             arrs.append((np.asarray(p.data, dtype=np.complex128), tuple(p.inds)))
-    return np.asarray(net_value(arrs, ())) * 10.0 ** expo
+    try:
+        return np.asarray(net_value(arrs, ())) * 10.0 ** expo
+    except LabelMismatch:
+        # an environment whose labels no longer match the lattice: reported as a (maximally) wrong value
+        return np.asarray(float("nan"))
 
 
 @st.composite
